@@ -8,8 +8,8 @@ JAVA = ["java", "-Xss16m", "-cp",
         "-DTLA-Library=" + SPEC_DIR]
 
 ALL_PROPS = ["C01.a", "C01.b", "C02.a", "C02.b", "C03.a", "C03.b", "C03.c", "C03.d",
-             "C04.a", "C04.b", "C04.c", "C05.a", "C05.b", "C05.c", "C05.keep", "C06.frame",
-             "C07.a", "C07.b", "C07.c", "C07.d", "C07.e", "C08.a", "C08.b", "C08.c", "C08.d",
+             "C04.a", "C04.b", "C04.c", "C05.a", "C05.b", "C05.c", "C05.keep", "C06.frame", "C06.bind",
+             "C07.a", "C07.b", "C07.c", "C07.d", "C07.e", "C08.a", "C08.b", "C08.c", "C08.d", "C08.e",
              "C09.a", "C09.b", "C10.a", "C10.b", "C10.c", "C12.a", "C12.b", "C12.c",
              "C13.a", "C13.b", "C13.c", "C15.a", "C15.b", "C15.c", "C16.a", "C16.b", "C16.c",
              "C17.a", "C17.b", "C17.c", "C17.d", "C17.e", "C17.f", "C17.g", "C18.a"]
@@ -58,7 +58,7 @@ def long_names_of(lines):
     for ln in lines:
         for f in ln["out"]:
             n = f.get("nameplate", "~")
-            if f["type"] == "allocated" and n.isdigit() and len(n) >= 4 and len(n) <= 6 and str(int(n)) == n:
+            if f["type"] == "allocated" and n.isascii() and n.isdigit() and len(n) >= 4 and len(n) <= 6 and str(int(n)) == n:
                 r.add(n)
     return r
 
